@@ -1,5 +1,5 @@
 import Got.Model.Ants
-import Got.Lemmas.AntsInv
+import Got.Lemmas.AntsQueues
 /-
 C07 — ants: every accepted task completes once with a result matching its attempts.
 Model: Got.Model.Ants (timed LTS of pool.go, pool_impl.go, task_callback_ants.go, task_option.go,
@@ -103,6 +103,21 @@ theorem C07_discard (c : Cfg) (hc : c.old = false) (s : State) (hr : Reachable c
   refine ⟨by simp [get2, hd], ok.onErrD hd, h0, ?_, ?_⟩
   · rw [ok.inv_eq, h0]; rfl
   · intro a; rw [ok.beyond a (by omega)]
+
+/-- fidelity of the model: the three guards that the model adds to channel operations (`take` requires the received
+    task to be in stage `queued`, `wTake` requires the received closure to be `queued`, `sendCl` requires the current
+    attempt's closure not to have been sent yet) hold in every reachable state, so they never disable a transition the
+    Go code could take; both channels hold every item at most once. -/
+theorem C07_model_guards_redundant (c : Cfg) (hc : c.old = false) (s : State) (hr : Reachable c s) :
+    (∀ k rest, s.taskQ = k :: rest → (s.task k).pc = .queued) ∧
+    (∀ k a rest, s.innerQ = (k, a) :: rest → ((s.task k).at_ a).pc = .queued) ∧
+    (∀ k, (s.task k).pc = .sendCl → ((s.task k).at_ (s.task k).cur).pc = .none) ∧
+    s.taskQ.Nodup ∧ s.innerQ.Nodup := by
+  have hq := queueInv_reachable hc hr
+  have hi := inv_reachable hc hr
+  refine ⟨?_, ?_, fun k hp => ((hi k).sendCl hp).1, hq.tnd, hq.ind⟩
+  · intro k rest e; exact hq.tq k (by rw [e]; simp)
+  · intro k a rest e; exact hq.iq k a (by rw [e]; simp)
 
 /-! non-vacuity: a reachable finished task with two attempts (first timed out, second succeeded), and a discarded one -/
 def c07DemoActs : List Act :=
